@@ -178,6 +178,15 @@ func (s *Sync) validateSetDefaults() error {
 	if s.WriteWorkers <= 0 {
 		s.WriteWorkers = defaultWriteWorkers
 	}
+	for _, sp := range s.Config {
+		if sp == nil {
+			return errors.New("empty sync protocol entry")
+		}
+		// the periodic modes run on a ticker, which needs a positive interval
+		if sp.Interval <= 0 && (sp.Protocol == sbiNETCONF || sp.Mode == "get" || sp.Mode == "once") {
+			sp.Interval = defaultSyncInterval
+		}
+	}
 	return nil
 }
 
